@@ -91,6 +91,21 @@ func (self *Compiler) linkImports(program map[string]ast.AnalyzedProgram) {
 	}
 }
 
+// The name under which the VM keeps an item imported from a host module: two host modules may offer items of
+// the same name, and which one a module means is decided by its own import statement.
+func HostImportIdent(module string, item string) string {
+	return fmt.Sprintf("@%s:%s", module, item)
+}
+
+// A global which is neither a variable nor a function of the program: an item the current module imported
+// from a host module, or a builtin of the VM.
+func (self *Compiler) globalIdent(ident string) string {
+	if key, found := self.hostImports[self.currModule][ident]; found {
+		return key
+	}
+	return ident
+}
+
 func (self *Compiler) mangleFn(input string) string {
 	// (the separator cannot be part of an identifier: `b_c` of module `a` is not `c` of module `a_b`)
 	mangled := fmt.Sprintf("@%s:%s", self.currModule, input)
